@@ -349,6 +349,7 @@ Fixpoint get_all (s : st) (e : cls) (ids : list Z) : exn + list obj :=
 (* ------------------------------------------------------------------ operations *)
 Inductive op :=
 | Create (k : cls) (a : cargs) (unk : bool)
+| CreateId (k : cls) (a : cargs) (unk : bool) (i : Z)      (* K(id=i, ...) *)
 | Get (e : cls) (id : Z)
 | SetAttr (e : cls) (id : Z) (col : cls) (v : inval)
 | SetMany (e : cls) (id : Z) (kvs : list (cls * inval))
@@ -431,14 +432,40 @@ Definition run_select (s : st) (src : cls) (x : sqlx) : res :=
 Definition by_clause (col : option cls) (v : option Z) : sqlx :=
   match col with None => XTrue | Some c => XCmp c Ceq v end.
 
+Definition do_create (auto : bool) (s : st) (k : cls) (a : cargs) (unk : bool) : st * res :=
+  match creat auto (rev (chain k)) None a unk s with
+  | (s', inl e) => (s', RErr e)
+  | (s', inr id) =>
+      let s'' := set_born s' (born s' ++ [(id, k)]) in
+      (s'', match get_obj s'' k id with inl e => RErr e | inr ob => RObj ob end)
+  end.
+
+(* the root class with an explicit id: same checks as own_create, the row gets
+   the id given (0 and negative ids are fine for sqlite), a primary-key
+   collision is a DuplicateEntryError, the AUTOINCREMENT counter only grows *)
+Definition root_create_id (a : cargs) (unk : bool) (i : Z) (s : st) : exn + st :=
+  if unk then inl EType
+  else match validate (arg_of a KA) with
+       | inl e => inl e
+       | inr v => match sql_insert KA i v None s with
+                  | inl e => inl e
+                  | inr s' => inr (set_seq s' (Z.max (seq s) i))
+                  end
+       end.
+
 Definition step (auto : bool) (s : st) (o : op) : st * res :=
   match o with
-  | Create k a unk =>
-      match creat auto (rev (chain k)) None a unk s with
-      | (s', inl e) => (s', RErr e)
-      | (s', inr id) =>
-          let s'' := set_born s' (born s' ++ [(id, k)]) in
-          (s'', match get_obj s'' k id with inl e => RErr e | inr ob => RObj ob end)
+  | Create k a unk => do_create auto s k a unk
+  | CreateId k a unk i =>
+      match parent k with
+      | Some _ => do_create auto s k a unk      (* InheritableSQLObject._create: id = self._parent.id, the id given is dropped *)
+      | None =>
+          match root_create_id a unk i s with
+          | inl e => (s, RErr e)
+          | inr s' =>
+              let s'' := set_born s' (born s' ++ [(i, k)]) in
+              (s'', match get_obj s'' k i with inl e => RErr e | inr ob => RObj ob end)
+          end
       end
   | Get e id => (s, match get_obj s e id with inl x => RErr x | inr ob => RObj ob end)
   | SetAttr e id col v =>
@@ -568,6 +595,7 @@ Definition trig_destroy (s : st) (e : cls) (id : Z) : bool :=
 Definition trigger (auto : bool) (s : st) (o : op) : bool :=
   match o with
   | Create k a unk => trig_create auto s k a unk
+  | CreateId k a unk _ => match parent k with Some _ => trig_create auto s k a unk | None => false end
   | Destroy e id => trig_destroy s e id
   | _ => false
   end.
